@@ -65,6 +65,10 @@ def _depths(tier):
 
 def bounds(tier):
     n, nc, m = _depths(tier)
+    return dict(_bounds(tier), recovery="every shape sequence of length <= 2 (terminated / open last line) parsed right after each of %d aborted parses (mixed termination, undecodable bytes, failing iterator, strict-mode rejections)" % len(aborts()))
+
+
+def _bounds(tier):
     return {"shapes": "all sequences of length 1..%d over %d line shapes, plus length %d over the %d-shape core"
                       % (n, len(shapes(0)), nc, len(CORE_IDX)),
             "termination_modes": ["every line ends in \\n", "every line but the last (last line non-empty)",
@@ -298,6 +302,68 @@ def cut(s):
 
 # ------------------------------------------------------------------------------------------------ units
 
+# ---------------------------------------------------------------- recovery: a valid parse after an aborted one
+
+def aborts():
+    """inputs outside the statement's quantifier (or failing for environmental reasons) on which a parse may raise"""
+    def failing_iter():
+        yield "A: b\n"
+        yield "# c\n"
+        yield "C: d\n"
+        raise IOError("read error injected by the harness")
+    return [
+        ("mixed-termination-1", lambda: ["# c\n", "A: b", "y\n"], {}),
+        ("mixed-termination-2", lambda: ["A: b\n", "C: d\n", ""], {}),
+        ("mixed-termination-3", lambda: ["junk\n", "A: b\n", " c\n", "B: c", "D: e\n"], {}),
+        ("mixed-termination-4", lambda: ["A: b", "C: d\n"], {}),
+        ("undecodable-bytes", lambda: [b"A: b\n", b"#c\n", b"B: \xff\xfe\n", b"C: d\n"], {}),
+        ("iterator-raises", failing_iter, {}),
+        ("strict-error-tokens", lambda: ["A: b\n", "junk\n", "C: d\n"], {"strict": True}),
+        ("strict-duplicates", lambda: ["#c\n", "A: b\n", "A: c\n", "D: e\n"], {"strict": True}),
+        ("empty-middle-line", lambda: ["A: b\n", "", "C: d\n"], {}),
+    ]
+
+
+def do_abort(i):
+    """-> name of the exception class raised by the aborted parse (or 'no-exception')"""
+    from debian._deb822_repro.parsing import parse_deb822_file
+    from debian._deb822_repro.tokens import tokenize_deb822_file
+    _name, mk, opts = aborts()[i]
+    out = "no-exception"
+    for fn in (lambda x: list(tokenize_deb822_file(x)),
+               (lambda x: parse_deb822_file(x)) if opts.get("strict") else
+               (lambda x: parse_deb822_file(x, accept_files_with_error_tokens=True,
+                                            accept_files_with_duplicated_fields=True))):
+        try:
+            fn(mk())
+        except Exception as e:
+            out = type(e).__name__
+    return out
+
+
+def unit_recover(part, ai, seed):
+    sh = shapes(seed)
+    name = aborts()[ai][0]
+    for L in (1, 2):
+        for ix in itertools.product(range(len(sh)), repeat=L):
+            seq = [sh[i] for i in ix]
+            for mode in ("nl", "open-last"):
+                if mode == "open-last" and seq[-1] == "":
+                    continue
+                lines = lines_for(seq, mode)
+                case = {"space": "recover", "abort": ai, "mode": mode, "lines": lines}
+                exc = do_abort(ai)
+                part.states += 1
+                part.transitions += 1
+                part.traces += 1
+                part.nontrivial += 1
+                for sig, exp, obs in execute(lines, part):
+                    part.violation("after-aborted-parse/" + sig, case, exp, obs, rank=L)
+    part.outcomes["recover/%s/%s" % (name, exc)] += 1
+    part.sample({"space": "recover", "abort": ai, "mode": "nl", "lines": lines_for([sh[6], sh[4]], "nl")})
+    return part
+
+
 def units(tier, seed):
     n, nc, m = _depths(tier)
     ns = len(shapes(seed))
@@ -316,6 +382,8 @@ def units(tier, seed):
     ncp = len(sweep_code_points())
     for lo in range(0, ncp, SWEEP_CHUNK):
         out.append(("sweep", "", lo, min(lo + SWEEP_CHUNK, ncp)))
+    for ai in range(len(aborts())):
+        out.append(("recover", "", ai, ()))
     return out
 
 
@@ -323,6 +391,8 @@ def unit_cost(u, tier):
     space, which, L, pre = u
     if space == "sweep":
         return (pre - L) * len(SWEEP_TEMPLATES) * 3 * 2
+    if space == "recover":
+        return 4000
     if space == "shapes":
         base = len(shapes(0)) if which == "full" else len(CORE_IDX)
         return 3 * L * base ** (L - len(pre))
@@ -334,6 +404,8 @@ def run_unit(u, tier, seed):
     space, which, L, pre = u
     if space == "sweep":
         return unit_sweep(part, L, pre)
+    if space == "recover":
+        return unit_recover(part, L, seed)
     part.max_depth = L
     if space == "shapes":
         sh = shapes(seed)
@@ -379,6 +451,9 @@ def replay(case):
     lines = list(case["lines"])
     if not in_domain(lines):
         return []
+    if case.get("space") == "recover":
+        do_abort(case["abort"])
+        return [("after-aborted-parse/" + b[0],) + tuple(b[1:]) for b in execute(lines)]
     return execute(lines)
 
 
